@@ -1,0 +1,119 @@
+//go:build verif
+
+package libinjection
+
+// Read-only accessors for the external verification harness.
+//
+// This file is compiled only with the build tag "verif"; without the tag it
+// does not exist for the compiler. It adds no state and modifies none: every
+// accessor works on a fresh scanner object or returns a copy.
+
+// VToken is a copy of one SQL token record.
+type VToken struct {
+	Cat           byte
+	Pos, Len, Cnt int
+	Val           string
+	Open, Close   byte
+	Before, After int // scan offset before/after the tokenize step that produced it
+}
+
+// VStats is a copy of the scanner statistics.
+type VStats struct{ DDX, Hash, Folds, Tokens int }
+
+func vtok(t *sqliToken) VToken {
+	return VToken{Cat: t.category, Pos: t.pos, Len: t.len, Cnt: t.count, Val: t.val, Open: t.strOpen, Close: t.strClose}
+}
+
+// VTokenize runs the raw tokenizer in the given mode on a fresh state. It
+// stops after len(input)+8 tokens (capped is then true) so that a scanner
+// that does not progress is reported instead of looping.
+func VTokenize(input string, flags int) (toks []VToken, st VStats, end int, capped bool) {
+	s := new(sqliState)
+	sqliInit(s, input, flags)
+	for {
+		before := s.pos
+		if !s.tokenize() {
+			break
+		}
+		v := vtok(s.current)
+		v.Before, v.After = before, s.pos
+		toks = append(toks, v)
+		if len(toks) > len(input)+8 {
+			capped = true
+			break
+		}
+	}
+	return toks, VStats{s.statsCommentDDX, s.statsCommentHash, s.statsFolds, s.statsTokens}, s.pos, capped
+}
+
+// VFingerprint folds on a fresh state and returns the folded tokens, the
+// fingerprint, the blacklist bit, the verdict of that parsing mode and the
+// statistics.
+func VFingerprint(input string, flags int) ([]VToken, string, bool, bool, VStats) {
+	s := new(sqliState)
+	sqliInit(s, input, flags)
+	fp := s.sqliFingerprint(flags)
+	var out []VToken
+	for i := 0; i < len(fp) && i < len(s.tokenVec); i++ {
+		out = append(out, vtok(&s.tokenVec[i]))
+	}
+	bl := s.blacklist()
+	verdict := s.checkFingerprint()
+	return out, fp, bl, verdict, VStats{s.statsCommentDDX, s.statsCommentHash, s.statsFolds, s.statsTokens}
+}
+
+// VKeywords returns a copy of the keyword / fingerprint table.
+func VKeywords() map[string]byte {
+	m := make(map[string]byte, len(sqlKeywords))
+	for k, v := range sqlKeywords {
+		m[k] = v
+	}
+	return m
+}
+
+// VH5Token is one HTML5 token: type, offset into the input, length.
+type VH5Token struct{ Type, Off, Len int }
+
+// VH5Tokens runs the HTML5 tokenizer from start context ctx and returns at
+// most max tokens.
+func VH5Tokens(input string, ctx int, max int) []VH5Token {
+	h := new(h5State)
+	h.init(input, ctx)
+	var out []VH5Token
+	for h.next() {
+		out = append(out, VH5Token{h.tokenType, len(input) - len(h.tokenStart), h.tokenLen})
+		if len(out) >= max {
+			break
+		}
+	}
+	return out
+}
+
+func VIsXSSCtx(input string, ctx int) bool { return isXSS(input, ctx) }
+func VIsBlackTag(s string) bool            { return isBlackTag(s) }
+func VIsBlackAttr(s string) int            { return isBlackAttr(s) }
+func VIsBlackURL(s string) bool            { return isBlackURL(s) }
+func VHTMLDecode(s string) (int, int)      { return htmlDecodeByteAt(s) }
+func VBlackTags() []string                 { return append([]string(nil), blackTags...) }
+
+// VNameType is a copy of one attribute / event list entry.
+type VNameType struct {
+	Name string
+	Type int
+}
+
+func VBlackAttrs() []VNameType {
+	var o []VNameType
+	for _, b := range blacks {
+		o = append(o, VNameType{b.name, b.attributeType})
+	}
+	return o
+}
+
+func VBlackEvents() []VNameType {
+	var o []VNameType
+	for _, b := range blackEvents {
+		o = append(o, VNameType{b.name, b.attributeType})
+	}
+	return o
+}
